@@ -292,3 +292,58 @@ Proof.
       destruct E as (kk' & E). rewrite E in *. cbv iota beta. rewrite IH. reflexivity.
     + destruct r; reflexivity.
 Qed.
+
+(* ---------- several pairwise disjoint code-base directories ---------- *)
+Lemma NoDup_app_intro {A} (a b : list A) :
+  NoDup a -> NoDup b -> (forall x, In x a -> In x b -> False) -> NoDup (a ++ b).
+Proof.
+  intros Ha Hb Hd. induction a as [|x a IH]; [exact Hb|]. cbn. inversion Ha; subst. constructor.
+  - intros Hin. apply in_app_or in Hin. destruct Hin as [Hin|Hin]; [contradiction|]. apply (Hd x (or_introl eq_refl) Hin).
+  - apply IH; [assumption|]. intros y Hy. apply Hd. right. exact Hy.
+Qed.
+
+Lemma NoDup_flat_map_disjoint {A B} (f : A -> list B) l :
+  (forall a, In a l -> NoDup (f a)) ->
+  ForallOrdPairs (fun a b => forall x, In x (f a) -> In x (f b) -> False) l ->
+  NoDup (flat_map f l).
+Proof.
+  intros Hn Hp. induction Hp as [|a l Ha _ IH]; [constructor|]. cbn. apply NoDup_app_intro.
+  - apply Hn. left. reflexivity.
+  - apply IH. intros b Hb. apply Hn. right. exact Hb.
+  - intros x Hx Hy. apply in_flat_map in Hy. destruct Hy as (b & Hb & Hy). rewrite Forall_forall in Ha. apply (Ha b Hb x Hx Hy).
+Qed.
+
+Lemma is_prefix_app a s : is_prefix a (a ++ s) = true.
+Proof. induction a as [|x a IH]; [reflexivity|]. cbn. rewrite String.eqb_refl. exact IH. Qed.
+Lemma is_prefix_split a : forall p, is_prefix a p = true -> exists s, p = a ++ s.
+Proof.
+  induction a as [|x a IH]; intros p; [exists p; reflexivity|]. destruct p as [|y p]; cbn; [discriminate|].
+  intros H. apply andb_true_iff in H. destruct H as [E H]. apply String.eqb_eq in E. subst.
+  destruct (IH p H) as (s & ->). exists s. reflexivity.
+Qed.
+Lemma prefixes_comparable a : forall b x y, a ++ x = b ++ y -> is_prefix a b = true \/ is_prefix b a = true.
+Proof.
+  induction a as [|c a IH]; intros b x y H; [left; reflexivity|]. destruct b as [|d b]; [right; reflexivity|].
+  cbn in H. inversion H; subst. cbn. rewrite String.eqb_refl. cbn. eapply IH; eauto.
+Qed.
+
+Lemma rglob_under root d p : In p (rglob root d) -> exists s, p = d ++ s.
+Proof.
+  unfold rglob. destruct (node_at root d) as [n|]; [|intros []]. intros H.
+  destruct (walk_under _ _ _ H) as (nm & suf & ->). eauto.
+Qed.
+
+Definition disjoint_dirs (d1 d2 : path) : Prop := is_prefix d1 d2 = false /\ is_prefix d2 d1 = false.
+
+Theorem counted_NoDup_disjoint root is_src F dirs :
+  wf root -> ForallOrdPairs disjoint_dirs dirs -> NoDup (counted root is_src F dirs).
+Proof.
+  intros Hwf Hp. unfold counted, iter. apply NoDup_filter. generalize (contains root is_src F dirs) as C. intros C.
+  apply NoDup_flat_map_disjoint.
+  - intros d _. apply NoDup_filter. unfold rglob. destruct (node_at root d) as [n|] eqn:E; [|constructor].
+    apply walk_NoDup. eapply wf_sub; eauto.
+  - induction Hp as [|a l Ha _ IH]; [constructor|]. constructor; [|exact IH].
+    rewrite Forall_forall in *. intros b Hb x Hx Hy. apply filter_In in Hx, Hy. destruct Hx as [Hx _], Hy as [Hy _].
+    destruct (rglob_under _ _ _ Hx) as (s1 & E1), (rglob_under _ _ _ Hy) as (s2 & E2). subst x.
+    destruct (Ha b Hb) as [H1 H2]. destruct (prefixes_comparable a b s1 s2 E2) as [H|H]; congruence.
+Qed.
